@@ -59,16 +59,22 @@ func VP_C11_Cli() {
 	zzvp.WriteFile(w+"/f", []byte("1"))
 	vpOK(zzvp.Run("add", "f"))
 	vpOK(zzvp.Run("commit", "-m", msg))
+	// the branches that the history renames to, creates and deletes, or switches to: ordinary names, or the legal name "HEAD"
+	// (its per-branch journal logs/refs/heads/HEAD must not be confused with the journal of HEAD itself)
+	trunk, gone, topic := "trunk", "gone", "topic"
+	if zzvp.Choose(2) == 1 {
+		trunk, gone, topic = "HEAD", "HEAD", "HEAD"
+	}
 	vpOK(zzvp.Run("branch", "dev")) // stays at the first commit
 	zzvp.WriteFile(w+"/f", []byte("2"))
 	vpOK(zzvp.Run("add", "f"))
 	vpOK(zzvp.Run("commit", "-m", "second"))
 	switch zzvp.Choose(3) {
 	case 1:
-		vpOK(zzvp.Run("branch", "-r", "trunk")) // journal entries without target commit
+		vpOK(zzvp.Run("branch", "-r", trunk)) // journal entries without target commit
 	case 2:
-		vpOK(zzvp.Run("branch", "gone"))
-		vpOK(zzvp.Run("branch", "-d", "gone")) // a deleted branch
+		vpOK(zzvp.Run("branch", gone))
+		vpOK(zzvp.Run("branch", "-d", gone)) // a deleted branch
 	}
 	b := zzvp.Run("reflog")
 	zzvp.Assert(b.Exit == 0, "reflog works after any history Goit produced, whatever the commit messages contain")
@@ -83,7 +89,8 @@ func VP_C11_Cli() {
 		r = zzvp.Run("commit", "-m", zzvp.Str("msg2", zzvp.Choose(zzvp.Param("msglen", 3)+1), vpMsgAlpha))
 		kind = "commit"
 	case 1:
-		r = zzvp.Run("switch", "-c", "topic")
+		zzvp.Assume(vpHeadRef() != topic)
+		r = zzvp.Run("switch", "-c", topic)
 		kind = "checkout"
 	case 2:
 		// to a branch that points to another commit than the one being left
